@@ -15,8 +15,8 @@ def main():
 
     boost = 3 if chk.broken else 1
     n_single = G.n_single() if chk.thorough else 16000 * boost
-    n_multi = 120000 if chk.thorough else 36000 * boost
-    n_bad = 80000 if chk.thorough else 20000 * boost
+    n_multi = 300000 if chk.thorough else 36000 * boost
+    n_bad = 200000 if chk.thorough else 20000 * boost
     short_len = 5 if chk.thorough else 4
 
     fam = {'corpus': C.corpus()}
@@ -39,7 +39,7 @@ def main():
         chk.broken.append({'kind': 'correspondence', 'stream': 'pyfmt-*', 'problem': 'driver could not be rebuilt from the regenerated model'})
 
     # falsifier: the property itself on the real code with the running interpreter as oracle; disagreeing inputs first
-    budget = (400000 if chk.thorough else 70000) * (3 if chk.broken else 1)
+    budget = (1000000 if chk.thorough else 70000) * (3 if chk.broken else 1)
     order = list(disagreeing) + [s for s, _ in oracle_dis] + fam['corpus'] + fam['boundary'] + fam['context'] + fam['short']
     rng = chk.rng
     pools = [fam['multi'], fam['malformed'], fam['single']]
@@ -80,14 +80,16 @@ EXPLANATION = (
     'argsOf_matches / accept_formats_canonical (such arguments exist: a tuple, or a mapping thanks to one-type-per-key and the '
     'named/unnamed exclusion), malformed_rejected (rejected by CPython whatever the arguments => rejected by the parser), '
     'reject_reasons (rejected although CPython can format => ArgumentIndexingMixture / ArgumentTypeMismatch / WidthRangeError / '
-    'PrecisionRangeError), error_means_malformed. For all strings: error_own (only own Error classes; asserts and the termination '
+    'PrecisionRangeError), error_means_malformed. For all strings: reason_true (the documented reason given is true of the '
+    'specifications the scanner reads: a literal width > 2^31-1; a literal precision > 2^31-1, or > 2^31-4 on an integer conversion; '
+    'a named and a positional specification; two specifications with one key and different types), error_own (only own Error classes; asserts and the termination '
     'device unreachable; int(ch) only sees one ASCII digit, so there is no digit-limit issue here). Pins: info_pin, types_pin, '
     'probes_pin (kernel evaluation of the model on ~1700 probed directives). Test-level only: the fidelity of Spec.CPyPercent to the '
     'interpreter (pyfmt-oracle stream against CPython 3.12.1, 64-bit; values abstracted to int/float/str/other; text and memory not '
     'modelled) and of the hand-written model to the code (pyfmt-* streams). Finding fixed in /repo: 84eb507 (integer conversions with '
     'literal precision 2^31-3..2^31-1 were accepted; CPython raises OverflowError for them whatever the argument). OUTSTANDING: '
-    'nothing of the design list is missing; not stated in Lean: that a documented rejection reason is *true of the string* '
-    '(checked by the falsifier against an independent reading), arguments given as a single non-tuple value.')
+    'nothing of the design list is missing; not stated in Lean: arguments given as a single non-tuple value; that recording '
+    'warnings is inert (compared by the pyfmt-nowarn stream only).')
 
 if __name__ == '__main__':
     common.main_wrapper(main)
